@@ -36,7 +36,7 @@ func init() {
 			{Name: "auditd-read", Fn: scnC13Read, Weight: 2},
 			{Name: "l3-daemon-cancel", Fn: scnC13L3, Weight: 1},
 		},
-		Rule: "cancellation injected into each blocking state of each worker (ingester waiting for a writer; blocked reading an idle pipe; after the last writer closed the pipe (whatever the ingester does at the end of the stream); audit ingester handing a record downstream " +
+		Rule: "cancellation injected into each blocking state of each worker (ingester waiting for a writer; blocked reading an idle pipe, each for 0 s to 5 simulated minutes before the cancellation; after the last writer closed the pipe (whatever the ingester does at the end of the stream); audit ingester handing a record downstream " +
 			"with a stopped consumer and buffer capacities {1,2,8,64,10000}, buffer empty or full, cancelled at once or after 2-40 simulated seconds of back-pressure; sshd pipeline handing a login to an unready correlator; audit processor idle / with lines queued / mid-push / during a maintenance flush / with a producer outside the cancelled group that keeps its queue topped up / with 18-47 failures queued behind an incomplete group; ended by a cancel call or by the context's own deadline), " +
 			"either in the constructively established state or at a tape-chosen scheduler step; plus the assembled daemon cancelled at a taped step under traffic; then a fair schedule with the clock advancing at quiescence: the worker must return within 1 simulated second and 20000 steps " +
 			"and stay silent for 10 further simulated seconds while input remains available; non-trivial = the intended blocking state was reached (probe) before cancel; distinct = distinct (state, capacity, fill, cancel step, schedule hash)",
@@ -175,11 +175,21 @@ func scnC13Ingest(state string) scenarioFn {
 			rc.Sim.Count("cancel_in_state_" + state)
 		}
 		_ = reached
+		// the worker may have been in that state for a long time when the cancellation comes
+		// (a log daemon that starts minutes later, a quiet night)
+		dwell := []time.Duration{0, 0, 30 * time.Second, 90 * time.Second, 5 * time.Minute}[t.Choose(5, "dwell")]
+		if inState && state != "eof" && dwell > 0 {
+			quietFor(rc, dwell)
+			rc.Sim.Count("c13.dwell_before_cancel")
+			if res.v {
+				inState = false // it gave up on its own: nothing left to cancel
+			}
+		}
 		callsAtCancel := calls.n
 		cancel()
 		rc.Sim.Count("ctx.cancel")
 		ok, why := settleAfterCancel(rc, func() bool { return res.v }, time.Second)
-		rc.CaseKey(state, pre, step)
+		rc.CaseKey(state, pre, step, dwell)
 		rc.R.NonTrivial = inState
 		rc.R.Sample = map[string]any{"worker": "namedpipe.Ingest", "state": state, "lines_before": pre, "cancel_at_step": step, "in_state_at_cancel": inState, "returned": res.v, "err": fmt.Sprint(res.err)}
 		if !ok {
